@@ -43,10 +43,11 @@ try:
     meta["demo_clean_exit"], meta["demo_changed_exit"] = r0, r1
     meta["demo_changed_output"] = o1[-600:]
     meta["ran"].append(f"PYTHONPATH=/repo python demo.py -> {r0}; PYTHONPATH=<changed> python demo.py -> {r1}")
-    rc, out = sh(["/venv/bin/python", os.path.join(V, "tools", "baseline.py"), wt, f"/tmp/ev_{name}.xml"])
+    # PYTHONHASHSEED=0: three [cfg1] enumeration tests of the pinned suite are hash-seed flaky on the unmodified tree
+    rc, out = sh(["/venv/bin/python", os.path.join(V, "tools", "baseline.py"), wt, f"/tmp/ev_{name}.xml"], env=dict(os.environ, PYTHONHASHSEED="0"))
     meta["suite_passes"] = rc == 0
     meta["suite_output"] = out[-400:]
-    meta["ran"].append("tools/baseline.py <changed tree> (pinned suite, 214 stable tests)")
+    meta["ran"].append("PYTHONHASHSEED=0 tools/baseline.py <changed tree> (pinned suite, 214 stable tests)")
     detected = {}
     for tier in ("quick", "thorough"):
         t0 = time.time()
